@@ -1,11 +1,14 @@
 import KV.Model.Evm
 import KV.Base.Keccak
 -- kvdrv: evm KV.Drv.C10.step ()
-/-! line protocol for the KVM single-frame model (property C10)
+/-! line protocol for the KVM model (property C10)
 
-`run set=<pre|post> ro=<0|1> gas=<n> value=<n> code=<hex> input=<hex> storage=<k:v,...>`
-  → `ok|revert ret=<hex> storage=<sorted k:v> logs=<topics/data,...> gas=<left>` |
+`run  set=<pre|post> ro=<0|1> gas=<n> value=<n> code=<hex> input=<hex> storage=<k:v,...>`
+  → `ok|revert ret=<hex> storage=<sorted k:v of the contract> logs=<topics/data,...> gas=<left>` |
     `err <class> ret=- storage=.. logs=- gas=0` | `unsupported`
+`runw …same… [auxb2=<hex>] [auxc3=<hex>]` (helper accounts 0xb2 / 0xc3 with balance 300)
+  → `<status> ret=<hex> world=<addr{b=<balance> n=<nonce> s=<k:v,...>} …> logs=<addr:topics/data,...> gas=<left>`
+`create set=<pre|post> gas=<n> value=<n> addr=<n> code=<hex>` (top-level `KVM.Create` by the origin) → as `runw`
 `jd code=<hex> dests=<d,...>` → one `0/1` per destination (`validJumpdest`).
 
 The environment constants are the ones the harness (`harness/overlay/kvm/c10_test.go`) uses. -/
@@ -22,14 +25,14 @@ def parsePair (s : String) : Option (Nat × Nat) :=
 def parseStorage (s : String) : Option Storage :=
   if s = "-" then some [] else (s.splitOn ",").mapM parsePair
 
-def insertSorted (p : Nat × Nat) : List (Nat × Nat) → List (Nat × Nat)
+def insertSorted {α} (key : α → Nat) (p : α) : List α → List α
   | [] => [p]
-  | q :: rest => if p.1 ≤ q.1 then p :: q :: rest else q :: insertSorted p rest
+  | q :: rest => if key p ≤ key q then p :: q :: rest else q :: insertSorted key p rest
+
+def sortBy {α} (key : α → Nat) (l : List α) : List α := l.foldl (fun acc p => insertSorted key p acc) []
 
 def showStorage (st : Storage) : String :=
-  let nz := st.filter (fun p => p.2 != 0)
-  let sorted := nz.foldl (fun acc p => insertSorted p acc) []
-  showList (fun p => s!"{p.1}:{p.2}") sorted
+  showList (fun p => s!"{p.1}:{p.2}") (sortBy (·.1) (st.filter (fun p => p.2 != 0)))
 
 def showLog (l : Log) : String :=
   ".".intercalate (l.1.map toString) ++ "/" ++ toHexTok l.2
@@ -37,31 +40,78 @@ def showLog (l : Log) : String :=
 def className : ErrClass → String
   | .oog => "oog" | .gasovf => "gasovf" | .underflow => "underflow" | .overflow => "overflow"
   | .invalid => "invalid" | .jump => "jump" | .wprot => "wprot" | .fuel => "fuel"
+  | .depth => "depth" | .balance => "balance" | .maxcode => "maxcode" | .codestore => "codestore"
+  | .collision => "collision"
 
-def showResult (r : Result) : String :=
-  let tail := s!"ret={toHexTok r.ret} storage={showStorage r.storage} logs={showList showLog r.logs} gas={r.gasLeft}"
+def statusName : Status → String
+  | .ok => "ok" | .revert => "revert" | .err c => s!"err {className c}" | .unsupported => "unsupported"
+
+def addrA : Nat := 0xa1
+def origin : Nat := 0xee
+
+/-- single-contract view: storage of 0xa1, logs without addresses (oldest first) -/
+def showResult (r : CallOut) : String :=
   match r.status with
-  | .ok => "ok " ++ tail
-  | .revert => "revert " ++ tail
-  | .err c => s!"err {className c} " ++ tail
   | .unsupported => "unsupported"
+  | st =>
+    let logs := (r.world.logs.reverse.map (fun p => showLog p.2))
+    s!"{statusName st} ret={toHexTok r.ret} storage={showStorage (r.world.get addrA).storage} logs={showList id logs} gas={r.gasLeft}"
 
-def mkEnv (post ro : Bool) (code input : Bytes) (value : Nat) : Env :=
-  { code, input, hash := KV.keccak256, post, readOnly := ro,
-    address := 0xa1, caller := 0xee, origin := 0xee, callvalue := value, gasprice := 7,
-    coinbase := 0xcb, timestamp := 1600000000, number := 1000, gaslimit := 8000000, chainid := 24 }
+def showAcct (p : Word × Account) : String :=
+  s!"{p.1}\{b={p.2.balance} n={p.2.nonce} c={p.2.code.length} s={showStorage p.2.storage}}"
+
+def acctVisible (x : Account) : Bool :=
+  !(x.nonce == 0 && x.balance == 0 && x.code.isEmpty && (x.storage.filter (fun p => p.2 != 0)).isEmpty)
+
+def showWorld (w : World) : String :=
+  let live := w.accts.filter (fun p => acctVisible p.2)
+  " ".intercalate ((sortBy (·.1) live).map showAcct)
+
+def showResultW (r : CallOut) : String :=
+  match r.status with
+  | .unsupported => "unsupported"
+  | st =>
+    let logs := (r.world.logs.reverse.map (fun p => s!"{p.1}:{showLog p.2}"))
+    s!"{statusName st} ret={toHexTok r.ret} world={showWorld r.world} logs={showList id logs} gas={r.gasLeft}"
+
+def txEnv (post : Bool) : TxEnv :=
+  { hash := KV.keccak256, post, origin := origin, gasprice := 7, coinbase := 0xcb, timestamp := 1600000000,
+    number := 1000, gaslimit := 8000000, chainid := 24 }
+
+def mkWorld (code : Bytes) (st : Storage) (aux : List (Nat × Bytes)) : World :=
+  { accts := [(origin, { balance := 1000000, nonce := 0, code := [], storage := [] }),
+              (addrA, { balance := 5000, nonce := 0, code := code, storage := st })]
+             ++ aux.map (fun p => (p.1, { balance := 300, nonce := 0, code := p.2, storage := [] })),
+    logs := [] }
+
+def auxOf (toks : List String) : List (Nat × Bytes) :=
+  ([(0xb2, "auxb2"), (0xc3, "auxc3")] : List (Nat × String)).filterMap fun p => (kvHex toks p.2).map fun c => (p.1, c)
+
+def runCmd (rest : List String) (full : Bool) : String :=
+  match kv rest "set", kvNat rest "ro", kvNat rest "gas", kvNat rest "value", kvHex rest "code", kvHex rest "input",
+        (kv rest "storage").bind parseStorage with
+  | some set, some ro, some gas, some value, some code, some input, some st =>
+    if set ≠ "pre" ∧ set ≠ "post" then "bad-op" else
+    let w := mkWorld code st (if full then auxOf rest else [])
+    let req : CallReq := { static := ro != 0, readOnly := false, caller := origin, addr := addrA, input := input,
+                           gas := gas, value := if ro != 0 then 0 else value }
+    let out := call (txEnv (set == "post")) w req
+    if full then showResultW out else showResult out
+  | _, _, _, _, _, _, _ => "bad-op"
 
 def step (s : Unit) (line : String) : Unit × String :=
   let toks := tokens line
   let out :=
     match toks with
-    | "run" :: rest =>
-      match kv rest "set", kvNat rest "ro", kvNat rest "gas", kvNat rest "value", kvHex rest "code", kvHex rest "input",
-            (kv rest "storage").bind parseStorage with
-      | some set, some ro, some gas, some value, some code, some input, some st =>
+    | "run" :: rest => runCmd rest false
+    | "runw" :: rest => runCmd rest true
+    | "create" :: rest =>
+      match kv rest "set", kvNat rest "gas", kvNat rest "value", kvNat rest "addr", kvHex rest "code" with
+      | some set, some gas, some value, some addr, some code =>
         if set ≠ "pre" ∧ set ≠ "post" then "bad-op" else
-        showResult (call (mkEnv (set == "post") (ro != 0) code input value) st gas)
-      | _, _, _, _, _, _, _ => "bad-op"
+        let w : World := { accts := [(origin, { balance := 1000000, nonce := 0, code := [], storage := [] })], logs := [] }
+        showResultW (createFrame (txEnv (set == "post")) w origin addr code gas value)
+      | _, _, _, _, _ => "bad-op"
     | "jd" :: rest =>
       match kvHex rest "code", (kv rest "dests").bind natList with
       | some code, some ds => String.join (ds.map fun d => if validJumpdest code d then "1" else "0")
